@@ -106,6 +106,18 @@ def container_events(env, rng, thorough):
                            "desc1": json.dumps(P.value_obj(x), sort_keys=True), "desc2": json.dumps(P.value_obj(y), sort_keys=True)})
             else:
                 ev.append({"op": "CopyEq", "call": "%s(%s)" % (cname, type(x).__name__), "eq": False, "ne": True, "desc1": "raised", "desc2": o[2]})
+    # list / tuple Arrays that hold a NaN item (legal: validation skips NaN): copy, deepcopy, Copy() and CreateCopy() keep the items and are
+    # equal to their source (a pickle makes new NaN objects, which no tuple comparison calls equal: not asked)
+    nan = float("nan")
+    for mk_name, mk in (("Array[list]", lambda: Array("length", [1.0, nan, 3.0], "m")), ("Array[tuple]", lambda: Array("length", (nan, 2.0), "m")),
+                        ("FixedArray[list]", lambda: FixedArray(3, "length", [1.0, nan, 3.0], "m")), ("FixedArray[tuple]", lambda: FixedArray(2, "length", (nan, 2.0), "m")),
+                        ("Array[list] of a derived quantity", lambda: Array("length", [nan, 2.0], "m") * Array("time", [1.0, 1.0], "s"))):
+        x = mk()
+        for cname, cf in (("copy", copy.copy), ("deepcopy", copy.deepcopy), ("Copy", lambda y: y.Copy()), ("CreateCopy", lambda y: y.CreateCopy())):
+            o = P.outcome(cf, x)
+            ok_ = o[0] == "ok"
+            ev.append({"op": "CopyEq", "call": "%s(%s with a NaN item)" % (cname, mk_name), "eq": ok_ and bool(o[1] == x), "ne": (not ok_) or bool(o[1] != x),
+                       "desc1": json.dumps(P.value_obj(x), sort_keys=True), "desc2": json.dumps(P.value_obj(o[1]), sort_keys=True) if ok_ else o[2]})
     return ev
 
 
